@@ -389,14 +389,37 @@ def _r4_which_pipelines(ctx, f: FuncInfo) -> None:
     r, prog = ctx.r, ctx.prog
 
     class _P:
-        def __init__(self, names, priority=0):
-            self.names, self.priority, self.name = names, priority, "same"
+        """Stand-in pipeline: every component is a list of the names it came from, the variables are {'shared': <its name>,
+        <its name>: 1}; '+' follows C14.R3 (concatenation, later variables win)."""
+        def __init__(self, names=(), priority=0, items=None, postprocessing_items=None, finalizers=None, vars=None, **kw):
+            names = list(names)
+            self.priority, self.name = priority, "same"
+            self.items = list(items) if items is not None else list(names)
+            self.postprocessing_items = list(postprocessing_items) if postprocessing_items is not None else list(names)
+            self.finalizers = list(finalizers) if finalizers is not None else list(names)
+            self.vars = dict(vars) if vars is not None else {k: v for n in names for k, v in (("shared", n), (n, 1))}
+            self.allowed_backends = frozenset()
+
+        @property
+        def names(self):
+            return self.items
+
+        def _clear_pipeline(self):
+            pass
+
+        def _set_pipeline(self, *a, **k):
+            pass
+
+        set_pipeline = _set_pipeline
 
         def __add__(self, o):
-            return _P(self.names + o.names)
+            if o is None or o == 0:
+                return self
+            return _P(items=self.items + o.items, postprocessing_items=self.postprocessing_items + o.postprocessing_items,
+                      finalizers=self.finalizers + o.finalizers, vars={**self.vars, **o.vars})
 
         def __radd__(self, o):
-            return self if o == 0 else _P(o.names + self.names)
+            return self if o is None or o == 0 else o.__add__(self)
 
     class _Path:
         DIRS = {"sysmon": [], "rules/pipelines": ["rules/pipelines/a.yml", "rules/pipelines/b.yml"], "": ["cwd.yml"], ".": ["cwd.yml"]}
@@ -426,7 +449,7 @@ def _r4_which_pipelines(ctx, f: FuncInfo) -> None:
              ([], [], "no specifier, the empty pipeline")]
     bad = []
     for specs, want, what in cases:
-        env = {"Path": _Path, "ProcessingPipeline": lambda: _P([]), "cast": lambda t, v: v}
+        env = {"Path": _Path, "ProcessingPipeline": lambda *a, **k: _P([], **k), "cast": lambda t, v: v}
         # every resolved pipeline carries the same name attribute: a tie-breaker must not rely on it
         me = Proxy(prog, RS, env, {"pipelines": {"sysmon": object(), "custom": object()}, "resolve_pipeline": lambda spec, target=None: _P([spec], prio.get(spec, 50))}, interp_kwargs={"max_steps": 8000})
         try:
@@ -437,6 +460,14 @@ def _r4_which_pipelines(ctx, f: FuncInfo) -> None:
         got = list(out.names) if isinstance(out, _P) else repr(out)
         if got != want:
             bad.append((specs, f"combines {got}, specified {want}", what))
+            continue
+        # every component is concatenated in that order, and the variables of later pipelines win
+        for comp in ("postprocessing_items", "finalizers"):
+            if list(getattr(out, comp)) != want:
+                bad.append((specs, f"{comp} are {list(getattr(out, comp))}, specified {want}", what))
+        want_vars = {k: v for n in want for k, v in (("shared", n), (n, 1))}
+        if dict(out.vars) != want_vars:
+            bad.append((specs, f"variables are {dict(out.vars)}, specified {want_vars} (a variable defined by several pipelines takes the value of the last one in (priority, specifier) order)", what))
     if bad:
         specs, why, what = bad[0]
         r.violation("C14.R4", f.qual, f"resolve({specs})", f"{why} ({what}; +{len(bad) - 1} more case(s)): the resolver must sort with the total, argument-order-independent key (priority, spec path) and fold with sum() in sorted order — which pipelines are combined must not depend on the contents of the working directory or on the order in which they were named, and resolve() must agree with resolve_pipeline(); an empty list yields the empty pipeline", f.loc)
